@@ -112,9 +112,9 @@ func (p *Proxy) ServeHTTP(w http.ResponseWriter, r *http.Request) {
 				tar.LastScrapeStatistics = scrape.NewStatisticsSeriesResult()
 			}
 		} else if stopReason != "" {
-			p.log.Warnf(stopReason)
+			p.log.Warn(stopReason)
 			w.WriteHeader(http.StatusBadRequest)
-			scrapErr = fmt.Errorf(stopReason)
+			scrapErr = fmt.Errorf("%s", stopReason)
 		}
 
 		if tar != nil {
